@@ -84,6 +84,12 @@ def shape(name, seed=0):
         A = full_input("A.txt", t3, l3, locs3, k=0, seed=seed, missing=miss)
         B = full_input("B.txt", t3, l3, locs3, k=1, seed=seed)
         return [A, B]
+    if name == "discrete_mass":
+        ins = shape("regular", seed)
+        for ai in ins:
+            ai.x0 = 0.0
+            ai.x1 = 6.0
+        return ins
     if name == "deterministic":
         return [full_input(n, t3, l3, locs3, k=k, seed=seed, fields=("obs", "fcst"), missing=[("fcst", (0, 1, 1))]) for k, n in enumerate(("A.txt", "B.txt"))]
     if name == "ensemble_only":
